@@ -5,4 +5,5 @@ import "github.com/aml-org/amf-custom-validator/verifh/core"
 // Checks maps a property id to its correspondence check.
 var Checks = map[string]func(*core.Env){
 	"C18": C18,
+	"C16": C16,
 }
